@@ -21,6 +21,6 @@ Extraction "../ocaml/model.ml"
   Ggm.ginit Ggm.input_bits Scenario.ggm_run Scenario.ggm_step
   Wasm.b64_encode Wasm.b64_decode Scenario.wasm_create Scenario.wasm_group Scenario.agg_run
   Ppoprf.sc_of_bytes Ppoprf.sc_to_bytes Ppoprf.sc_canonical Ppoprf.sc_inv Ppoprf.pk_to_bincode Ppoprf.pk_from_bincode
-  Ppoprf.json_evaluation Ppoprf.json_evaluation_decode Ppoprf.json_array Ppoprf.json_point_decode Ppoprf.server_to_bincode Ppoprf.proof_to_bincode Ppoprf.proof_from_bincode Ppoprf.client_unblind Ppoprf.combined_pk
+  Ppoprf.json_evaluation Ppoprf.json_evaluation_decode Ppoprf.json_array Ppoprf.json_point_decode Ppoprf.server_to_bincode Ppoprf.server_from_bincode Ppoprf.server_okb Ppoprf.proof_to_bincode Ppoprf.proof_from_bincode Ppoprf.client_unblind Ppoprf.combined_pk
   Scenario.srv_run Scenario.srv_step Scenario.pp_server_new Scenario.pp_client_blind Scenario.pp_client_finalize Scenario.pp_client_verify Scenario.pp_hash_to_group
   Scenario.star_scenario Scenario.star_recover_from Scenario.star_derive.
